@@ -690,11 +690,12 @@ def ref_parse(fx):
         if not o(("is", s3, "Some")):
             return kind("InvalidMembers")
         a4 = al(mk_field(mk_payload(s3, "Some", "0"), "1"))
+        # (the kind carries what was declared and what was found: part of the error a caller sees)
         if not o(("is", a4, "Some")):
-            return kind("UnexpectedStringBytes")
+            return ("Err", "UnexpectedStringBytes", (("expected", mk_field(header, "string_bytes")), ("found", lit_int(0))))
         sb = mk_field(mk_payload(a4, "Some", "0"), "1")
         if o(("lt", ("call", "core::slice::len", (sb,)), mk_field(header, "string_bytes"))):
-            return kind("UnexpectedStringBytes")
+            return ("Err", "UnexpectedStringBytes", (("expected", mk_field(header, "string_bytes")), ("found", ("call", "core::slice::len", (sb,)))))
         return ("Ok", (("header", header), ("classes", mk_field(mk_payload(s1, "Some", "0"), "0")),
                        ("members", mk_field(mk_payload(s2, "Some", "0"), "0")),
                        ("members_by_params", mk_field(mk_payload(s3, "Some", "0"), "0")), ("string_bytes", sb)))
@@ -716,6 +717,12 @@ def parse_outcome(st, out):
         if e[0] == "adt" and e[1] == "CacheError":
             e = dict(e[3]).get("kind", e)
         if e[0] == "adt":
+            if e[3]:
+                def uncast(t_):
+                    while t_[0] == "cast":
+                        t_ = t_[2]
+                    return t_
+                return ("Err", e[2], tuple(sorted((fn_, uncast(fv_)) for fn_, fv_ in e[3])))
             return ("Err", e[2])
     return ("other", v)
 
@@ -743,9 +750,9 @@ def check_parse(fx, rep, rule):
             return ("in", "buf")
         return None
     ref = ref_parse(fx)
-    bad, ncmp = fc.compare_paths(res, ref, parse_outcome, rw=rw)
+    bad, ncmp = fc.compare_paths(res, ref, lambda st_, out_: fc.rewrite(parse_outcome(st_, out_), rw), rw=rw)
     rep.context.setdefault("fc", {})[rule] = dict(paths=len(res), comparisons=ncmp, atoms=len(fc.atoms_of(res, 0, rw)))
-    oks = [1 for st, o in res if parse_outcome(st, o)[0] == "Ok"]
+    oks = [1 for st, o in res if parse_outcome(st, o)[0] == "Ok"]       # (tags only)
     if not bad and len(oks) == 1:
         rep.ok(rule, "%s/check-sequence" % rule, loc=F.short_file(b["sp"]),
                found="%d canonical paths: header -> endianness -> format -> version -> classes -> members -> by-params -> strings; "
